@@ -41,7 +41,7 @@ import (
 const (
 	allocSlack    = 32 << 20
 	allocPerByte  = 64
-	callWatchdog  = 30 * time.Second
+	callWatchdog  = 120 * time.Second
 	journalMaxHex = 3000
 	// Subnets.FromString allocates ~215 bytes per input character (fmt / strconv garbage per nibble): linear, i.e.
 	// bounded, but above the 64 x len slope of the monitor. The generated strings stay in the region where that linear
@@ -145,26 +145,27 @@ type outcome struct {
 	allocB uint64
 }
 
-func guarded(fn func() string) (o outcome) {
-	done := make(chan struct{})
+func guarded(fn func() string) outcome {
+	done := make(chan outcome, 1)
 	go func() {
-		defer close(done)
+		var o outcome
 		defer func() {
 			if r := recover(); r != nil {
 				o.pan = r
 				o.stack = string(debug.Stack())
 			}
+			done <- o
 		}()
 		o.res = fn()
 	}()
 	t := time.NewTimer(callWatchdog)
 	defer t.Stop()
 	select {
-	case <-done:
+	case o := <-done:
+		return o
 	case <-t.C:
 		return outcome{hung: true}
 	}
-	return o
 }
 
 func journalOf(in []byte) string {
@@ -320,7 +321,7 @@ func (e *env) runMessage(c *evid.Case, in *input) {
 	rng := c.Rng
 	w := e.w
 	c.Count("inputs", 1)
-	c.Count("inputs/"+in.class, 1)
+	countClass(c, in.class)
 	ph := "pre"
 	if in.post {
 		ph = "post"
@@ -406,6 +407,18 @@ func (e *env) runMessage(c *evid.Case, in *input) {
 	}
 	if c.Index < 3 && c.Idx == 0 {
 		c.Sample(map[string]any{"class": in.class, "feature": in.feature, "phase": ph, "history": hist, "result": res, "len": len(in.wire)})
+	}
+}
+
+// countClass: counters by top-level input class and by single hostile feature (the full combination only goes into
+// the distinct sets).
+func countClass(c *evid.Case, class string) {
+	top, rest, _ := strings.Cut(class, "/")
+	c.Count("inputs/"+top, 1)
+	for _, f := range strings.Split(rest, "+") {
+		if f != "" {
+			c.Count("feature/"+top+"/"+f, 1)
+		}
 	}
 }
 
@@ -655,7 +668,11 @@ func (e *env) genHostileConsensus(rng *rand.Rand) *input {
 			case 1:
 				ids = []uint64{0}
 			case 2:
-				ids = []uint64{uint64(sm.Signers[0]), uint64(sm.Signers[0])}
+				first := uint64(1)
+				if len(sm.Signers) > 0 {
+					first = uint64(sm.Signers[0])
+				}
+				ids = []uint64{first, first}
 			case 3:
 				for i := q; i >= 1; i-- {
 					ids = append(ids, i)
@@ -1106,7 +1123,7 @@ func (e *env) runRecords(c *evid.Case, rng *rand.Rand) {
 	// (a) UnmarshalRecord on a hostile payload
 	pl, feat := e.hostileJSON(rng, signed)
 	class := "record/" + feat
-	c.Count("inputs/"+class, 1)
+	countClass(c, class)
 	e.call(c, "records."+name+".UnmarshalRecord", class, feat, pl, func() string {
 		r := newRec()
 		err := r.UnmarshalRecord(pl)
@@ -1151,7 +1168,7 @@ func (e *env) runRecords(c *evid.Case, rng *rand.Rand) {
 		rng.Read(env)
 		class = "envelope/raw"
 	}
-	c.Count("inputs/"+class, 1)
+	countClass(c, class)
 	e.call(c, "records."+name+".Consume", class, feat, env, func() string {
 		r := newRec()
 		err := r.Consume(env)
@@ -1189,7 +1206,11 @@ func (e *env) runSubnets(c *evid.Case, rng *rand.Rand) {
 		rng.Read(b)
 		s, feat = string(b), "random-bytes"
 	case 5:
-		s, feat = strings.Repeat("f", rng.Intn(maxSubnetString)), "long-hex"
+		lim := maxSubnetString
+		if c.Lane.Race {
+			lim /= 8 // ~100x slower per character under the race detector on a loaded machine
+		}
+		s, feat = strings.Repeat("f", rng.Intn(lim)), "long-hex"
 	case 6:
 		s, feat = "zz"+records.ZeroSubnets, "non-hex"
 	default:
@@ -1201,7 +1222,7 @@ func (e *env) runSubnets(c *evid.Case, rng *rand.Rand) {
 		}
 	}
 	c.Count("inputs", 1)
-	c.Count("inputs/subnets/"+feat, 1)
+	countClass(c, "subnets/"+feat)
 	e.call(c, "records.Subnets.FromString", "subnets/"+feat, feat, []byte(s), func() string {
 		v, err := (records.Subnets{}).FromString(s)
 		if err == nil {
